@@ -753,6 +753,32 @@ func (w *simWorld) dump() string {
 	return sb.String()
 }
 
+// history renders the event log (emit / deliver / drop / state / selected), for failure messages.
+func (w *simWorld) history() string {
+	w.mu.Lock()
+	defer w.mu.Unlock()
+	var sb strings.Builder
+	for _, e := range w.log {
+		switch {
+		case e.d != nil && e.d.msg != nil:
+			nom := ""
+			if e.d.msg.useCand {
+				nom = " USE-CANDIDATE"
+			}
+			if e.d.msg.nomination != nil {
+				nom += fmt.Sprintf(" nomination=%d", *e.d.msg.nomination)
+			}
+			fmt.Fprintf(&sb, "  %s %c: %s%s\n", e.kind, 'A'+e.side, e.d, nom)
+		case e.d != nil:
+			fmt.Fprintf(&sb, "  %s %c: %s\n", e.kind, 'A'+e.side, e.d)
+		default:
+			fmt.Fprintf(&sb, "  %s %c: %s\n", e.kind, 'A'+e.side, e.note)
+		}
+	}
+
+	return sb.String()
+}
+
 func (w *simWorld) elapsed() time.Duration { return time.Since(w.started) }
 
 // ---- message construction for the scripted peer (solo mode)
